@@ -18,9 +18,11 @@ import (
 	"encoding/hex"
 	"fmt"
 	"os"
+	"runtime/debug"
 	"sort"
 	"strings"
 	"sync"
+	"sync/atomic"
 
 	"verif/engine/choice"
 	"verif/engine/enum"
@@ -40,15 +42,41 @@ type Case struct {
 	Zero      int    `json:"zero_reads"`        // how many zero-length reads the scripted readers may offer
 	Errs      int    `json:"errs"`              // how many injected errors each scripted stream may offer
 	ErrValues int    `json:"err_values"`        // how many error values (doubles.go readErrValues/writeErrValues) an injected error may take; 0/1 = plain sentinel
+	Chunk     int    `json:"chunk,omitempty"`   // >0: the scripted reader delivers at most this many bytes per Read
+	Pattern   string `json:"pattern,omitempty"` // generator of the GenLen content: "" | ladder-bin | ladder-ascii
 	Bound     int    `json:"bound"`             // deviation bound used by the explorer (-1: every choice sequence)
 	Choices   []int  `json:"choices"`           // answers to the choice points, 0 afterwards
 }
 
+const asciiAlphabet = "ABCDEFGHIJKLMNOPQRSTUVWXYZabcdefghijklmnopqrstuvwxyz0123456789-_"
+
+var contentCache sync.Map // generated contents are shared read-only between the cases of a size
+
 func (c Case) content() []byte {
 	if c.GenLen > 0 {
+		key := fmt.Sprintf("%s/%d", c.Pattern, c.GenLen)
+		if b, ok := contentCache.Load(key); ok {
+			return b.([]byte)
+		}
 		b := make([]byte, c.GenLen)
-		for i := range b {
-			b[i] = byte(i*7+1) ^ byte(i>>8) ^ byte(i>>13)
+		switch c.Pattern {
+		case "":
+			for i := range b {
+				b[i] = byte(i*7+1) ^ byte(i>>8) ^ byte(i>>13)
+			}
+		case "ladder-bin": // position dependent up to 4 GiB: a cut, a shift or a repeated window changes it
+			for i := range b {
+				b[i] = byte(i*7+1) ^ byte(i>>8) ^ byte((i>>13)*5) ^ byte((i>>21)*29)
+			}
+		case "ladder-ascii": // the same idea over letters, digits, '-' and '_' (valid text for every codec)
+			for i := range b {
+				b[i] = asciiAlphabet[(i*5+(i>>6)*3+(i>>12)*7+(i>>18)*11+(i>>24)*13)&63]
+			}
+		default:
+			panic("unknown pattern " + c.Pattern)
+		}
+		if c.GenLen >= 1<<20 {
+			contentCache.Store(key, b)
 		}
 		return b
 	}
@@ -386,6 +414,49 @@ func buildCases(thorough bool) (cases []Case, sizes map[string]any) {
 			}
 		}
 	}
+	// --- size ladder: nothing is cut, shifted or repeated at any internal buffer or cap boundary ---
+	// Default stream behaviour only (bound 0: no deviation), full reads and one chunked reader (4096 bytes per Read);
+	// every supported destination / source kind of the byte-exact codecs, one big string value for JSON, XML, YAML.
+	ladder := []int{4097, 32769, 1<<20 + 1, 10<<20 + 1}
+	if thorough {
+		ladder = []int{4095, 4096, 4097, 32767, 32768, 32769, 65537, 1<<20 + 1, 10<<20 - 1, 10 << 20, 10<<20 + 1, 32<<20 + 1}
+	}
+	nLadder := 0
+	for _, n := range ladder {
+		for _, chunk := range []int{0, 4096} {
+			for _, codec := range []string{"bytestream", "text"} {
+				kinds, pat := bsConsumeKinds, "ladder-bin"
+				if codec == "text" {
+					kinds, pat = textConsumeKinds, "ladder-ascii"
+				}
+				for _, k := range kinds {
+					if k.sup == supConcrete || k.sup == supIface {
+						add(Case{Sweep: "consume", Codec: codec, Kind: k.name, Stream: "closer", GenLen: n, Pattern: pat, Chunk: chunk, Bound: 0})
+						nLadder++
+					}
+				}
+			}
+			for _, codec := range []string{"json", "xml", "yaml"} {
+				add(Case{Sweep: "roundtrip", Codec: codec, Value: "big-string", GenLen: n, Pattern: "ladder-ascii", Chunk: chunk, Bound: 0})
+				nLadder++
+			}
+		}
+		for _, codec := range []string{"bytestream", "text"} {
+			kinds, pat := bsProduceKinds, "ladder-bin"
+			if codec == "text" {
+				kinds, pat = textProduceKinds, "ladder-ascii"
+			}
+			for _, k := range kinds {
+				if k.sup == supConcrete || k.sup == supIface {
+					add(Case{Sweep: "produce", Codec: codec, Kind: k.name, Stream: "closer", GenLen: n, Pattern: pat, Bound: 0})
+					nLadder++
+				}
+			}
+		}
+	}
+	sizes["size_ladder_lengths"] = ladder
+	sizes["size_ladder_cases"] = nLadder
+	sizes["size_ladder_axes"] = "length x {full reads, 4096-byte reads} x every supported destination kind of the byte-stream and text consumers + one big string value through JSON, XML, YAML; length x every byte-exact source kind of the byte-stream and text producers; position-dependent content (binary for the byte stream codec, letters/digits for the others); fault-free default streams; stored/written bytes compared exactly (length and sha256 reported)"
 	return cases, sizes
 }
 
@@ -434,15 +505,40 @@ func main() {
 	total := newTally()
 	divergedCases := 0
 	// the few documents that take milliseconds per execution are explored with the choice tree itself spread over the cores
-	var light []Case
+	var light, big []Case
 	for _, st := range cases {
-		if st.Value != "tree-big" {
+		switch {
+		case st.GenLen >= 1<<20:
+			big = append(big, st)
+		case st.Value != "tree-big":
 			light = append(light, st)
-			continue
+		default:
+			total.merge(explore(r, st, true))
 		}
-		total.merge(explore(r, st, true))
 	}
 	cases = light
+	// the megabyte rungs of the size ladder hold several copies of their content: a few at a time,
+	// in their own goroutines next to the main queue, with the collector at its normal pace
+	var bigWG sync.WaitGroup
+	var bigNext atomic.Int64
+	debug.SetGCPercent(200)
+	for w := 0; w < 4; w++ {
+		bigWG.Add(1)
+		go func() {
+			defer bigWG.Done()
+			for {
+				i := int(bigNext.Add(1) - 1)
+				if i >= len(big) || r.OutOfTime() {
+					return
+				}
+				t := explore(r, big[i], false)
+				mu.Lock()
+				total.merge(t)
+				mu.Unlock()
+			}
+		}()
+	}
+	defer bigWG.Wait()
 	enum.Parallel(len(cases), r.OutOfTime, func(i int) {
 		st := cases[(i+rot)%len(cases)]
 		t := explore(r, st, false)
